@@ -23,7 +23,7 @@ type c14Spec struct {
 func c14Cases(tier string, seed uint64, flavor string) []lib.Case {
 	n := 700
 	if tier == "thorough" {
-		n = 8000
+		n = 30000
 	}
 	var cases []lib.Case
 	for i := 0; i < n; i++ {
